@@ -217,9 +217,12 @@ func (s *Log) Nice(o TickOptions) {
 		return
 	}
 	firstN, lastN, base := s.spacingAtLevel(level, true)
-	s.Min = math.Pow(base, firstN)
-	s.Max = math.Pow(base, lastN)
+	min, max := math.Pow(base, firstN), math.Pow(base, lastN)
 	if neg {
-		s.Min, s.Max = -s.Max, -s.Min
+		min, max = -max, -min
 	}
+	if math.IsNaN(min) || math.IsInf(min, 0) || math.IsNaN(max) || math.IsInf(max, 0) || min > s.Min || max < s.Max {
+		return
+	}
+	s.Min, s.Max = min, max
 }
